@@ -175,7 +175,9 @@ Fixpoint rl_loop (spr : Z) (rs : list rec) (i : Z) (prev next : list Z) (last ex
         let last_i := alookup NO_RECORD_LINK ch last in
         let '(prev', next') :=
           if r_reci r =? 0 then (set_idx i NO_RECORD_LINK prev, next)
-          else if r_time r =? alookup 0 ch exp then (set_idx i last_i prev, set_idx last_i i next)
+          (* elif last_i != NO_RECORD_LINK and r["time"] == expected_next_start[ch]:   (fix d422fcc) *)
+          else if negb (last_i =? NO_RECORD_LINK) && (r_time r =? alookup 0 ch exp)
+               then (set_idx i last_i prev, set_idx last_i i next)
           else (prev, next) in
         rl_loop spr rest (i + 1) prev' next' ((ch, i) :: last) ((ch, r_time r + spr * r_dt r) :: exp)
   end.
@@ -186,3 +188,26 @@ Definition spr_of (rs : list rec) : Z :=
 Definition record_links (rs : list rec) : res (list Z * list Z) :=
   let n := length rs in
   rl_loop (spr_of rs) rs 0 (repeat NO_RECORD_LINK n) (repeat NO_RECORD_LINK n) [] [].
+
+(* The loop as it was at the pinned snapshot (before fix d422fcc): `elif r["time"] ==
+   expected_next_start[ch]:` without the last_i guard.  Kept only to document the refuted
+   statement C18_record_links_time0_refuted_pinned; nothing else uses it. *)
+Fixpoint rl_loop_pinned (spr : Z) (rs : list rec) (i : Z) (prev next : list Z) (last exp : list (Z * Z))
+  : res (list Z * list Z) :=
+  match rs with
+  | [] => Ok (prev, next)
+  | r :: rest =>
+      let ch := r_ch r in
+      if ch <? 0 then Err 4
+      else
+        let last_i := alookup NO_RECORD_LINK ch last in
+        let '(prev', next') :=
+          if r_reci r =? 0 then (set_idx i NO_RECORD_LINK prev, next)
+          else if r_time r =? alookup 0 ch exp then (set_idx i last_i prev, set_idx last_i i next)
+          else (prev, next) in
+        rl_loop_pinned spr rest (i + 1) prev' next' ((ch, i) :: last) ((ch, r_time r + spr * r_dt r) :: exp)
+  end.
+
+Definition record_links_pinned (rs : list rec) : res (list Z * list Z) :=
+  let n := length rs in
+  rl_loop_pinned (spr_of rs) rs 0 (repeat NO_RECORD_LINK n) (repeat NO_RECORD_LINK n) [] [].
